@@ -4,8 +4,9 @@
    Rust code going through the arithmetic, in the order the code performs them
    (this matters for floats: the tracked loads are updated by rounded +/-).
    The `loop` of VnBest runs on plain fuel supplied by the caller: with floats
-   no bound on the number of turns is known (it can oscillate for ever, see
-   docs/C14.md).  Executable definitions only. *)
+   no bound on the number of turns is proved (before fix 98041ea it could
+   oscillate for ever, see docs/C14.md; [guard] selects the loop with / without
+   the progress test of that fix).  Executable definitions only. *)
 From Coupe Require Import Lib.Prelude Lib.SFloat Model.ArithW Model.NumPart Model.Vn.
 From Coq Require Import Floats.SpecFloat.
 
@@ -98,7 +99,14 @@ Section VnW.
 
   Definition vb_stateW := (list N * list Wt * N)%type.
 
-  Definition vb_stepW (crit : list (itemW A)) (st : vb_stateW) : vb_stateW + res (list N * N) :=
+  (* the progress test added by fix 98041ea (see Model/Vn.v, vb_guard): it reads `-`, `+=`, `<` *)
+  Definition vb_guardW (lo lu w imbalance : Wt) : bool :=
+    let new_over := w_sub A lo w in
+    let new_under := w_add A lu w in
+    w_ltb A new_over new_under && negb (w_ltb A (w_sub A new_under new_over) imbalance).
+
+  (* [guard] = with the progress test (the current code) / without it (the loop before the fix) *)
+  Definition vb_stepW (guard : bool) (crit : list (itemW A)) (st : vb_stateW) : vb_stateW + res (list N * N) :=
     let '(p, L, n) := st in
     match minmax_posW L with
     | None => inr (Panic 3)
@@ -117,6 +125,7 @@ Section VnW.
           | None => inr (Panic 2)
           | Some (w, id) =>
             if w_leb A imbalance w || w_is_zero A w then inr (Ok (p, n))
+            else if guard && vb_guardW lo lu w imbalance then inr (Ok (p, n))
             else if Nat.ltb id (length p) then
               let L1 := set_nth L over (w_sub A lo w) in
               match nth_opt L1 under with
@@ -133,7 +142,7 @@ Section VnW.
       end
     end.
 
-  Definition vn_bestW (fuel : nat) (ws : list Wt) (p : list N) : res (list N * N) :=
+  Definition vn_bestW (guard : bool) (fuel : nat) (ws : list Wt) (p : list N) : res (list N * N) :=
     let k := part_count p in
     if negb (Nat.eqb (length ws) (length p)) then Err (InputLenMismatch (length p) (length ws))
     else if existsb (fun w => w_ltb A w (w_zero A)) ws then Err NegativeValues
@@ -141,7 +150,7 @@ Section VnW.
     else
       bind (parts_loadW ws p k) (fun L =>
         let crit := rev (sort_items_descW A (items_ofW A ws)) in
-        match iter_nat (vb_stepW crit) fuel (p, L, 0%N) with
+        match iter_nat (vb_stepW guard crit) fuel (p, L, 0%N) with
         | inl _ => OutOfFuel
         | inr r => r
         end).
